@@ -275,7 +275,64 @@ def check(sess, arena, checker, outcome, plan):
     return found
 
 
+def many_tiny_shares(case):
+    """a transfer under way is joined, one after the other or all at once, by thousands of
+    transfers whose limits are minute: every one of them takes its share, however small - the
+    sum of them is what the first transfer loses (closed form, exact in Fractions)"""
+    from fractions import Fraction
+    from usim import Scope
+    from ..probe import Session
+    rng = random.Random('%s/%s/c13-tiny' % (case['seed'], case['index']))
+    crowd = rng.choice([40, 80, 120])
+    weight = rng.choice([5e-10, 2.5e-10, 1e-9])
+    joined_at = rng.choice([0.015625, 0.25])
+    stagger = rng.random() < 0.5            # all at one time, in as many turns / one per time step
+    ends = []
+
+    async def main_transfer(pipe):
+        await pipe.transfer(1)
+        ends.append(time.now)
+
+    async def tiny(pipe, number):
+        if stagger:
+            await (time + number * 2.0 ** -40)
+        await pipe.transfer(10 ** 9, weight)
+
+    async def main():
+        pipe = Pipe(throughput=1)
+        async with Scope() as scope:
+            scope.do(main_transfer(pipe))
+            await (time + joined_at)
+            for number in range(crowd):
+                scope.do(tiny(pipe, number), volatile=True)
+            await (time + 3)
+
+    sess = Session(budget_per_step=10 ** 6, budget_total=10 ** 7)
+    outcome = sess.run(main())
+    violations = [dict(v) for v in sess.violations if v['mechanism'].startswith('kernel-')]
+    # exact: until the crowd has joined the transfer has the pipe to itself; afterwards its
+    # share is 1 / (1 + crowd * weight). (Staggered arrivals take 2**-40 each: their effect on
+    # the end is below 1e-9 and inside the tolerance.)
+    total = Fraction(1) + crowd * Fraction(weight)
+    expected = Fraction(joined_at) + (1 - Fraction(joined_at)) * total
+    what = 'a transfer on Pipe(1) joined at %r by %d transfers limited to %r each%s' % (
+        joined_at, crowd, weight, ', one after the other' if stagger else '')
+    if outcome[0] != 'ok':
+        violations.append({'mechanism': 'c13:run-failed', 'msg': '%s: %r' % (what, outcome[1])})
+    elif len(ends) != 1 or abs(Fraction(ends[0]) - expected) > Fraction(3, 10 ** 9) * expected:
+        violations.append({'mechanism': 'c13:wrong-completion-time',
+                           'msg': '%s: completed at %s, the shares say %r' % (
+                               what, ends, float(expected))})
+    for vio in violations:
+        vio['case'] = dict(case)
+    return {'evals': 1, 'sigs': [], 'violations': violations, 'sample': None,
+            'stats': {'crowds_of_tiny_shares': 1, 'completions_checked': 1,
+                      'activations': sess.n}}
+
+
 def run_case(case):
+    if case['index'] % 40 == 19 and case.get('plan') is None:
+        return many_tiny_shares(case)
     rng = random.Random('%s/%s/c13-inj' % (case['seed'], case['index']))
     return inject.explore(case, build_for(case), rng, check, case['tier'],
                           quick_samples=12, max_plans=400)
